@@ -255,9 +255,9 @@ class C17(Prop):
     num = 17
     regions = {'quick': [('core', 28), ('block', 56), ('routers', 21), ('renege', 28), ('preempt', 21), ('renege_preempt', 14),
                          ('prio_reroute', 14), ('sched_reroute', 14), ('sched', 21), ('sched_block', 28), ('schedpre', 21),
-                         ('slotted', 21), ('dyn', 35), ('ps', 14), ('deadlock', 28), ('all', 42),
+                         ('slotted', 21), ('dyn', 28), ('renege_dyn', 35), ('ps', 14), ('deadlock', 28), ('all', 42),
                          ('preempt_block', 14), ('schedpre_block', 14)]}
-    thorough_mult = 15
+    thorough_mult = 7
     rule = ('one case = one observed run with one of the seven built-in trackers (tracker = job index mod 7, so every region sees every '
             'tracker), or one call of state_probabilities on a synthetic / recorded Fraction history compared with the extracted Gallina '
             'model and with an independent exact computation of the time shares; non-trivial run = history with >= 10 entries and, for '
@@ -283,7 +283,7 @@ class C17(Prop):
         for region, cnt in (('deadlock', 45), ('block', 30), ('sched_block', 15)):
             for i in range(cnt * (1 if tier == 'quick' else self.thorough_mult)):
                 js.append({'region': region, 'gseed': seed * 100003 + 50000 + i, 'size': 'quick', 'tix': 6 if i % 3 else 5})
-        m = 1 if tier == 'quick' else 15
+        m = 1 if tier == 'quick' else 7
         for i in range(260 * m):
             js.append({'custom': 'sp_synth', 'dseed': seed * 7919 + i})
         for i in range(28 * m):
@@ -422,7 +422,7 @@ class C17(Prop):
             res['verdict'] = ('A', [ncase])
         else:
             res['verdict'] = ('R', 0, 181 if 'time share' in bad[1].get('why', '') else 180, [])
-            res['cfg'] = {'state_probabilities_case': bad[1], 'job': job}
+            res['cfg'] = {'state_probabilities_case': bad[1], 'replay_job': {'custom': job['custom'], 'dseed': job['dseed']}}
             res['finding'] = None
             res['detail'] = bad[1]
         if job.get('want_sample') or kind == 'sp_witness':
